@@ -8,3 +8,4 @@ import ZbossModel.Props.C18
 #print axioms Zboss.App.C18_seq_never_255
 #print axioms Zboss.App.C18_seq_step
 #print axioms Zboss.App.C18_bind
+#print axioms Zboss.App.C18_source_exprs
